@@ -675,20 +675,21 @@ def unit_gas_readouts(twin=False):
                     if not dec(tm.not_(tm.eq(gpt, tm.num(0, "P")))):
                         r.add("print.no_gas_phase_nothing_reported", FAILED, "symex", 0, ""); return
                 fx = dec(fixedp)
+                rep = {"n": G0(ex, s, "total_moles"), "V": G0(ex, s, "volume")}
                 if fx and ex_ and dec(present):
                     pr_ = dec(PR)
                     tag = "%s.fixed_pressure.%s" % (which, "Peng_Robinson" if pr_ else "ideal")
-                    U.discharge_eq_real(r, tag + ".total_moles:=moles_of_the_gas_unknown#%d" % len(r.obligations), hyps, wr.get("gp_total_moles", tm.num(-1)), nmol)
+                    # since /repo 9b8d1e69 the writers REPORT n and V = n*V_m | n*R*T/P of a fixed-pressure phase and write nothing (xgas_save derives what is stored)
                     specV = (G0(ex, s, "v_m") * nmol) if pr_ else (nmol * R * tk / G0(ex, s, "total_p"))
                     if twin and not pr_:
                         specV = nmol * R * tk * G0(ex, s, "total_p")
-                    U.discharge_eq_real(r, tag + ".volume:=%s#%d" % ("n*V_m" if pr_ else "n*R*T/P", len(r.obligations)), hyps, wr.get("gp_volume", tm.num(-1)), specV)
-                    r.add(tag + ".pressure_and_molar_volume_untouched#%d" % len(r.obligations), DISCHARGED if set(wr) == {"gp_total_moles", "gp_volume"} else FAILED, "symex", 0, repr(sorted(wr))[:100], kind="frame")
+                    rep["n"], rep["V"] = nmol, specV
+                    r.add(tag + ".gas_phase_record_untouched(values_are_reported_only)#%d" % len(r.obligations), DISCHARGED if not wr else FAILED, "symex", 0, repr(sorted(wr))[:100], kind="frame")
                     n[tag] = 1
                 elif fx and ex_:
                     if which == "punch":
-                        ok = set(wr) <= {"gp_volume"} and (not wr or (tm.isnum(wr["gp_volume"]) and wr["gp_volume"].args[0] == 0))
-                        r.add("punch.fixed_pressure.phase_absent(n<1e-12):volume_0#%d" % len(r.obligations), DISCHARGED if ok and wr else FAILED, "symex", 0, repr(wr)[:100]); n["punch.absent"] = 1
+                        rep["V"] = tm.num(0, "R")
+                        r.add("punch.fixed_pressure.phase_absent(n<1e-12):nothing_written(volume_reported_as_0)#%d" % len(r.obligations), DISCHARGED if not wr else FAILED, "symex", 0, repr(wr)[:100]); n["punch.absent"] = 1
                     else:
                         ok = not wr and len(fm) == 0 or (not wr and all("Total pressure" not in repr(e.args[0]) for e in fm))
                         r.add("print.fixed_pressure.phase_absent(n<1e-12):no_gas_block#%d" % len(r.obligations), DISCHARGED if ok else FAILED, "symex", 0, repr(wr)[:100]); n["print.absent"] = 1
@@ -699,7 +700,7 @@ def unit_gas_readouts(twin=False):
                 if which == "punch":
                     vals = {repr(e.args[0]).strip('"'): e.args[2] for e in fp}
                     for key, mem in (("pressure", "total_p"), ("total mol", "total_moles"), ("volume", "volume")):
-                        want = G1(ex, s, mem if not (twin and key == "volume") else "v_m")
+                        want = {"pressure": G0(ex, s, "total_p"), "total mol": rep["n"], "volume": rep["V"] if not twin else G0(ex, s, "v_m")}[key]
                         ok = key in vals and same_real(vals[key], want)
                         r.add("punch.cell_%s==%s_of_the_gas_phase#%d" % (key.replace(" ", "_"), mem, len(r.obligations)), DISCHARGED if ok else FAILED, "symex", 0, repr(vals.get(key))[:120])
                     n["punch.cells"] = 1
@@ -710,7 +711,7 @@ def unit_gas_readouts(twin=False):
                         for key in ("Total pressure", "Gas volume", "Molar volume", "P * Vm / RT"):
                             if key in t and len(e.args) == 2:
                                 lab[key] = e.args[1]
-                    P1, V1, N1, Vm1 = G1(ex, s, "total_p"), G1(ex, s, "volume"), G1(ex, s, "total_moles"), G1(ex, s, "v_m")
+                    P1, V1, N1, Vm1 = G0(ex, s, "total_p"), rep["V"], rep["n"], G0(ex, s, "v_m")
                     r.add("print.Total_pressure==total_p_of_the_gas_phase#%d" % len(r.obligations), DISCHARGED if "Total pressure" in lab and same_real(lab["Total pressure"], P1) else FAILED, "symex", 0, repr(lab.get("Total pressure"))[:100])
                     r.add("print.Gas_volume==volume_of_the_gas_phase#%d" % len(r.obligations), DISCHARGED if "Gas volume" in lab and same_real(lab["Gas volume"], V1) else FAILED, "symex", 0, repr(lab.get("Gas volume"))[:100])
                     pr_ = dec(PR)
